@@ -270,8 +270,10 @@ theorem quad_mesh (su sv : ℕ) :
 /-- `make_quad_mesh` after the repair of F-15c stores a parameter pair in every vertex (`quadVertexUV`): for the
     `su·sv` evaluated points of a surface the vertex of grid position `(i, j)` (id = point index `j + i·sv`) gets
     `(i/(su-1), j/(sv-1))`, which is the pair of sample parameters `linspace(0,1,su)[i]`, `linspace(0,1,sv)[j]` at which
-    that point was evaluated (so re-evaluating the surface at the stored parameters returns the point itself) ... -/
-theorem quad_vertex_parameters (su sv i j : ℕ) (hi : i < su) (hj : j < sv) :
+    that point was evaluated (so re-evaluating the surface at the stored parameters returns the point itself);
+    sizes `≥ 2` (`hu`, `hv`: for a size of 1 the repaired `make_quad_mesh` raises `ZeroDivisionError`, the driver op
+    `quaduv` answers `ERR`, and the model's `0 / 0 = 0` would be "equal" to `linspaceCore 0 1 1`) ... -/
+theorem quad_vertex_parameters (su sv i j : ℕ) (hu : 2 ≤ su) (hv : 2 ≤ sv) (hi : i < su) (hj : j < sv) :
     (quadVertexUV (K := K) (su * sv) su sv).length = su * sv ∧
     (quadVertexUV (K := K) (su * sv) su sv)[gridVid sv i j]? =
       some ((i : K) / ((su - 1 : ℕ) : K), (j : K) / ((sv - 1 : ℕ) : K)) ∧
